@@ -156,3 +156,32 @@ package parser
 //@   requires f != nil && out != nil
 //@   modifies out.Name, out.Value
 //@   ensures decodes_to_dispatch_marker: result && out.Name == "" && out.Value == ""
+
+// ---------------------------------------------------------------------------------------------------------
+// parser.go: Parser over a bufio.Scanner (assumed Scanner contract, ghost state scdone/scerr/sctok) (C01, C11, C20)
+// ---------------------------------------------------------------------------------------------------------
+
+//@ pure readfailed(sc) = sc != nil && scdone(sc) && scerr(sc) != nil
+
+//@ func Parser.Next
+//@   requires r != nil && f != nil && r.fieldScanner != nil && r.inputScanner != nil && !r.fieldScanner.keepComments
+//@   modifies r.inputScanner, r.fieldScanner.data, r.fieldScanner.err, r.fieldScanner.started, r.fieldScanner.removeBOM, scannercell(old(r.inputScanner)), f.Name, f.Value
+//@   ensures field_is_valid: result ==> validname(f.Name) && f.Name != ":" && singleLine(f.Value)
+//@   ensures false_only_at_end: !result ==> r.fieldScanner.err != nil || r.inputScanner == nil || readfailed(r.inputScanner)
+//@   ensures scanner_dropped_only_at_clean_end: r.inputScanner == nil ==> !result && scdone(old(r.inputScanner)) && scerr(old(r.inputScanner)) == nil
+//@   ensures scanner_kept_otherwise: r.inputScanner != nil ==> r.inputScanner == old(r.inputScanner)
+//@   ensures comments_stay_off: !r.fieldScanner.keepComments
+
+//@ func Parser.Err
+//@   requires r != nil && r.fieldScanner != nil
+//@   ensures read_error_wins: readfailed(r.inputScanner) ==> result == scerr(r.inputScanner)
+//@   ensures clean_end_is_eof: r.fieldScanner.err == nil && r.inputScanner == nil ==> result == io.EOF
+//@   ensures unexpected_eof_reported: r.fieldScanner.err != nil && !readfailed(r.inputScanner) ==> result == r.fieldScanner.err
+//@   ensures nothing_yet: r.fieldScanner.err == nil && r.inputScanner != nil && !readfailed(r.inputScanner) ==> result == nil
+
+//@ func Parser.Buffer
+//@   requires r != nil && r.inputScanner != nil && !scstarted(r.inputScanner)
+
+//@ func New
+//@   ensures fresh_parser: result != nil && fresh(result) && result.inputScanner != nil && result.fieldScanner != nil && !scstarted(result.inputScanner) && !scdone(result.inputScanner)
+//@   ensures field_parser_configured: result.fieldScanner.removeBOM && !result.fieldScanner.keepComments && result.fieldScanner.err == nil && result.fieldScanner.data == "" && !result.fieldScanner.started
